@@ -197,7 +197,26 @@ pub fn j_convert(a: &Pt, b: &Pt, x: TimeScale, leap: &LeapTable, out: &mut Local
         }
     };
     if x == TimeScale::UTC && (undefined_in_utc(a) || undefined_in_utc(b)) {
-        out.dc(0);
+        if !(a.exact && b.exact) {
+            out.dc(0); // ET/TDB points: on which side of the edge they fall is not pinned
+            return;
+        }
+        // UTC has no count for an instant inside an inserted interval, so == and strict order cannot be preserved; but
+        // the order must not be REVERSED (TAI to UTC never goes backwards, C06): the UTC counts of the two converted
+        // epochs must be ordered like the instants, or equal
+        let (ea, eb) = (ep(a), ep(b));
+        let want = a.tai.cmp(&b.tai);
+        match guard(|| (alpha(ea.to_time_scale(x).duration), alpha(eb.to_time_scale(x).duration))) {
+            Ok((ua, ub)) => {
+                let got = ua.cmp(&ub);
+                if got == want || got == Ordering::Equal || want == Ordering::Equal {
+                    out.ok(2, true, 5000 + (got == want) as u64);
+                } else {
+                    out.viol("c12.convert", "order-reversed-by-conversion-into-utc-inside-an-inserted-interval".into(), args, format!("{want:?} or Equal"), format!("{got:?} (UTC counts {ua} / {ub})"));
+                }
+            }
+            Err(p) => out.viol("c12.convert", format!("panic:{}", p.class()), args, "no panic".into(), format!("{} {}", p.loc, p.msg)),
+        }
         return;
     }
     let want = a.tai.cmp(&b.tai);
